@@ -124,7 +124,7 @@ func newCfgSet(cfgs []namedCfg) *cfgSet {
 
 // ownCfgSet builds fresh, private copies of the named configurations.
 func ownCfgSet(like []namedCfg) *cfgSet {
-	pool := append(allConfigs(), formConfigs()...)
+	pool := append(append(allConfigs(), formConfigs()...), blankConfigs()...)
 	var mine []namedCfg
 	for _, l := range like {
 		for _, c := range pool {
